@@ -113,6 +113,7 @@ def rule_a(ctx):
 
 
 def rule_b(ctx):
+    from .. import inline
     F = ctx.F
     rid = "C16.b"
     ctx.rule(rid, "terminate path: restore SIG_DFL -> unblock that signal -> raise(signal), in that order, never returning (abort); stop path raises "
@@ -205,6 +206,34 @@ def rule_b(ctx):
             g = any(ce[0] == "binop" and ce[1] in ("Eq", "Ne") and mentions(ce, lambda x: x[0] == "call" and x[1] == rb) and
                     ((ce[1] == "Eq" and truth(inf) is True) or (ce[1] == "Ne" and truth(inf) is False)) for (ce, inf, sb) in facts_at(m, xb))
         ctx.check(g, rid, "term:raise-after-restore-ok", "the re-raise happens only when the restore succeeded", raises[0][1]["sp"], why)
+        # ... and "succeeded" means what the system call said: with every helper inlined, no re-raise is reachable from the failure
+        # outcome of sigaction(..) (anything but 0)
+        from .C14 import result_tests
+        from .nf import keep_for
+        mf = inline.cached(F, m0, keep=keep_for(F, m0, None, False), tag="c16-full", hof=True, thread=True,
+                           inlinable=lambda c: inline.default_inlinable(F, c, True) or (c is not None and c.body is not None and bool(inline.SHAPE_PRED_RE.match(c.name))))
+        flf = flow(mf)
+        okp = True; whyp = []; nsa = 0
+
+        def is_raise(ci):
+            return ci.symbol == "raise" or (ci.local and any(i.symbol == "raise" for i, _, _ in Cone(F, [ci]).of_class("SAFE_FFI")))
+        for (sb_, st_, sc_) in call_sites(F, mf, foreign("sigaction")):
+            nsa += 1
+            tests, fail = result_tests(mf, sb_)
+            if not tests:
+                okp = False; whyp.append("the result of sigaction is not compared with 0")
+            # assume the success outcome (result == 0) never happens: nothing that re-raises may remain after the call
+            cut = {(tb_, tg_) for tb_ in tests for tg_ in mf.succ(tb_, unwind=False) if (tb_, tg_) not in fail}
+            m2_ = inline.assuming(F, mf, cut)
+            rr_ = cfg.reachable(m2_, sb_, unwind=False) if not m2_.blocks[sb_].get("dead") else set()
+            hit = [t_["sp"] for b_, t_, c_ in call_sites(F, m2_, is_raise) if b_ in rr_ and b_ in cfg.reachable(m2_, 0, unwind=False)]
+            if hit:
+                okp = False; whyp.append({"re-raise reachable although sigaction failed": hit})
+        nraise = len(call_sites(F, mf, is_raise))
+        if nsa:
+            if not nraise:
+                raise AnchorLost("re-raise call in the fully inlined emulate_default_handler")
+            ctx.check(okp, rid, "term:restore-ok-iff-zero", "the signal is re-raised only when sigaction returned 0 (helpers inlined)", raises[0][1]["sp"], whyp)
     # ---- Stop
     stop_r = region("Stop") - term_r
     eff = effect_calls(region("Stop"))
@@ -227,6 +256,49 @@ def rule_b(ctx):
         if not gated and not _early_known(m, b):
             bad.append(c.name + " @ " + t["sp"])
     ctx.check(not bad, rid, "unknown:error-first", "every effect is dominated by the successful table lookup (or by signal == SIGSTOP/SIGKILL)", m.span, bad)
+    # SIGKILL and SIGSTOP cannot have their disposition changed: they are re-raised directly, each on its own (`||`, not `&&`)
+    from ..conds import switch_edges
+    rz = [(b, t, c) for b, t, c in all_eff if c.symbol == "raise" or (c.local and any(i.symbol == "raise" for i, _, _ in Cone(F, [c]).of_class("SAFE_FFI")))]
+    for num, nm_ in ((9, "SIGKILL"), (19, "SIGSTOP")):
+        other = 19 if num == 9 else 9
+        # edges that need `signal == other` to be true are removed: the raise must still be reachable before the table lookup
+        drop = set()
+        for (b2, tgt, lab, exprs, t2) in switch_edges(m):
+            for e in exprs:
+                e = deep_strip(e)
+                if e[0] == "binop" and e[1] in ("Eq", "Ne") and deep_strip(e[2]) == ("param", 1) and fold(e[3]) == other:
+                    val = int(lab[3:]) if lab.startswith("sw:") else None
+                    is_true = (val is not None and val != 0) or (val is None and [v for v, _ in t2["vals"]] == [0])
+                    if (e[1] == "Eq" and is_true) or (e[1] == "Ne" and not is_true):
+                        drop.add((b2, tgt))
+                elif e == ("param", 1) and lab == "sw:%d" % other and not any(v == num and tg == tgt for v, tg in t2["vals"]):
+                    drop.add((b2, tgt))
+        r_ = cfg.reachable_without_edges(m, 0, drop, avoid={sw})
+        direct = [t["sp"] for b, t, c in rz if b in r_ and [deep_strip(x) for x in fl.term_arg(b, 0)] == [("param", 1)]]
+        ctx.check(bool(direct), rid, "uncatchable:%s" % nm_, "%s is re-raised directly, without going through the table (its disposition cannot be restored)" % nm_, m0.span,
+                  {"direct_raise_sites_reachable_for_%s_alone" % nm_: direct})
+    # the row whose kind is used is the one whose number *equals* the argument: if the comparison `row.number == signal` never held,
+    # no branch on a looked-up kind would remain
+    from .. import inline
+    cut = set(); cmps = []
+    for (b2, tgt_, lab, exprs, t2) in switch_edges(m):
+        for e in exprs:
+            e = deep_strip(e)
+            if e[0] == "binop" and e[1] in ("Eq", "Ne"):
+                pair = (deep_strip(e[2]), deep_strip(e[3]))
+                if any(x == ("param", 1) for x in pair) and any(x[0] == "field" for x in pair):
+                    val = int(lab[3:]) if lab.startswith("sw:") else None
+                    is_true = (val is not None and val != 0) or (val is None and [v for v, _ in t2["vals"]] == [0])
+                    if (e[1] == "Eq") == is_true:
+                        cut.add((b2, tgt_))
+                    cmps.append(t2.get("sp"))
+    if cut:
+        m2 = inline.assuming(F, m, cut)
+        left = [b2 for b2 in cfg.reachable(m2, 0, unwind=False) if m2.term(b2)["k"] == "switch" and not m2.blocks[b2].get("dead") and KT in (_discr_ty(m2, b2) or "")]
+        ctx.check(not left, rid, "lookup:equality", "the table row used is the one whose number equals the argument (no branch on a looked-up kind survives assuming the comparison never holds)",
+                  m0.span, {"comparisons": sorted(set(cmps)), "kind_branches_left": [m2.term(b2).get("sp") for b2 in left]})
+    else:
+        ctx.ok(rid, "lookup:equality", "no equality scan between a row number and the argument in this shape of the lookup: polarity question does not arise", m0.span)
     errs = [i for i in Cone(F, [m]).members if i.defp == "std::io::error::Error::from_raw_os_error"]
     ctx.check(bool(errs), rid, "unknown:einval", "the unknown-signal error is an OS error code (EINVAL), built without allocation", m.span, None)
 
@@ -305,8 +377,10 @@ def _early_known(m, b):
 
 def _discr_ty(m, b):
     """type of the place whose discriminant the switch at b examines (`discr(_n)` or `discr((*_n).field)`)"""
-    for s in m.stmts(b):
-        if s["k"] == "assign" and s["r"]["k"] == "discr":
+    d = m.term(b).get("d") or {}
+    dl = d["p"]["l"] if d.get("k") in ("copy", "move") and not d["p"]["p"] else None
+    for s in reversed(m.stmts(b)):
+        if s["k"] == "assign" and s["r"]["k"] == "discr" and (dl is None or (not s["l"]["p"] and s["l"]["l"] == dl)):
             pl = s["r"]["p"]
             fields = [p for p in pl["p"] if p["k"] == "field"]
             if fields:
@@ -323,8 +397,10 @@ def _discr_local(m, b):
         if e[0] == "discr":
             x = deep_strip(e[1])
             # find a local of that type: scan statements for `discr(_n)`
-    for s in m.stmts(b):
-        if s["k"] == "assign" and s["r"]["k"] == "discr":
+    d = t.get("d") or {}
+    dl = d["p"]["l"] if d.get("k") in ("copy", "move") and not d["p"]["p"] else None
+    for s in reversed(m.stmts(b)):
+        if s["k"] == "assign" and s["r"]["k"] == "discr" and (dl is None or (not s["l"]["p"] and s["l"]["l"] == dl)):
             return s["r"]["p"]["l"]
     return None
 
